@@ -483,7 +483,12 @@ fn main() {
         let n1 = alpha1.len();
         let single_parts = singles.len().div_ceil(256);
         let hist3_parts = if thorough { n1 } else { 0 };
-        let n_parts = single_parts + na + hist3_parts;
+        // thorough: all messages of five units, generated on the fly (one partition per first two units)
+        let five_parts = if thorough { nu * nu } else { 0 };
+        // thorough: histories of three messages whose first or last message is any of the alphabet
+        let hist3b_parts = if thorough { 2 * na } else { 0 };
+        let units_ref = &units;
+        let n_parts = single_parts + na + hist3_parts + five_parts + hist3b_parts;
         let res = par::run_simple(n_parts, args.threads, args.seed, St::default, |st, p| {
             if p < single_parts {
                 for m in singles_ref[p * 256..].iter().take(256) {
@@ -495,11 +500,34 @@ fn main() {
                 for b in alpha_ref.iter() {
                     check_buffer(cxr, st, &[a.clone(), b.clone()], false);
                 }
-            } else {
+            } else if p < single_parts + na + hist3_parts {
                 let a = &alpha1_ref[p - single_parts - na];
                 for b in alpha_ref.iter() {
                     for c in alpha1_ref.iter() {
                         check_buffer(cxr, st, &[a.clone(), b.clone(), c.clone()], false);
+                    }
+                }
+            } else if p < single_parts + na + hist3_parts + five_parts {
+                let q = p - single_parts - na - hist3_parts;
+                let (i0, i1) = (q / nu, q % nu);
+                mc::util::product(nu, 3, |idx| {
+                    let m = Msg::of([i0, i1, idx[0], idx[1], idx[2]].iter().map(|&i| units_ref[i].clone()).collect());
+                    check_buffer(cxr, st, std::slice::from_ref(&m), false);
+                });
+            } else {
+                let q = p - single_parts - na - hist3_parts - five_parts;
+                let a = &alpha_ref[q % na];
+                let two_unit_first = q < na;
+                if a.units.len() <= 1 {
+                    return; // covered by the histories above
+                }
+                for b in alpha_ref.iter() {
+                    for c in alpha1_ref.iter() {
+                        if two_unit_first {
+                            check_buffer(cxr, st, &[a.clone(), b.clone(), c.clone()], false);
+                        } else {
+                            check_buffer(cxr, st, &[c.clone(), b.clone(), a.clone()], false);
+                        }
                     }
                 }
             }
@@ -515,8 +543,8 @@ fn main() {
             tot.distinct.merge(s.distinct);
         }
         per_tree.push(json!({"tree": tree.name, "declarations": tree.spec.iter().map(|h| h.decl).collect::<Vec<_>>(), "unit_alphabet": tree.units,
-            "max_units_per_message": k, "single_messages": singles.len(), "history_alphabet": na,
-            "histories": {"two_messages": na * na, "three_messages": hist3_parts * na * n1},
+            "max_units_per_message": if thorough { 5 } else { k }, "single_messages": singles.len() + five_parts * nu * nu * nu, "history_alphabet": na,
+            "histories": {"two_messages": na * na, "three_messages": hist3_parts * na * n1 + if thorough { 2 * (na - n1) * na * n1 } else { 0 }},
             "buffers": tot.buffers - before.0, "executions": tot.execs - before.1}));
     }
     // (4) previous-message independence through process (Main tree)
